@@ -270,20 +270,35 @@ func PerpendicDistFromLineSqrD(pt, line1, line2 PointD) float64 {
 		return 0
 	}
 
-	return sqr(a*d-c*b) / (c*c + d*d)
+	return sqr(diffOfProducts(a, d, c, b)) / (c*c + d*d)
+}
+
+// diffOfProducts returns a*b - c*d with the rounding error of the products compensated
+// (Kahan's algorithm with fused multiply-add), so that a non-zero cross product of large
+// operands is not rounded to zero and an exactly zero one stays zero.
+func diffOfProducts(a, b, c, d float64) float64 {
+	cd := c * d
+	err := math.FMA(-c, d, cd)
+	return math.FMA(a, b, -cd) + err
 }
 
 func PerpendicDistFromLineSqr64(pt, line1, line2 Point64) float64 {
-	a := float64(pt.X - line1.X)
-	b := float64(pt.Y - line1.Y)
-	c := float64(line2.X - line1.X)
-	d := float64(line2.Y - line1.Y)
+	ai, bi := pt.X-line1.X, pt.Y-line1.Y
+	ci, di := line2.X-line1.X, line2.Y-line1.Y
+	a, b, c, d := float64(ai), float64(bi), float64(ci), float64(di)
 
 	if c == 0 && d == 0 {
 		return 0
 	}
 
-	return sqr(a*d-c*b) / (c*c + d*d)
+	const lim = int64(1) << 31
+	if ai > -lim && ai < lim && bi > -lim && bi < lim && ci > -lim && ci < lim && di > -lim && di < lim {
+		// the cross product is exact in int64 here; float64 products would round
+		// above 2^53 and turn a unit cross product into 0
+		return sqr(float64(ai*di-ci*bi)) / (c*c + d*d)
+	}
+
+	return sqr(diffOfProducts(a, d, c, b)) / (c*c + d*d)
 }
 
 func Ellipse64(center Point64, radiusX, radiusY float64, steps int) Path64 {
